@@ -220,3 +220,186 @@ Proof.
   - intros c0 m. specialize (hD5 c0 m). specialize (Hns 0 false). t1.
   - intros c0 e0. specialize (hD6 c0 e0). t1.
 Qed.
+
+(* ---- SessStart ---- *)
+Lemma key_eqb_refl k : key_eqb k k = true.
+Proof. destruct (key_eqb_spec k k); congruence. Qed.
+
+Lemma cur_preserved (sm sm' : nat * nat -> option nat) (se se' : nat -> session) q p src dst s a c :
+  q <> p -> src <> dst -> a = is_a src dst ->
+  sm' (mkkey src dst) = Some s ->
+  (forall k0, k0 <> mkkey src dst -> sm' k0 = sm k0) ->
+  (forall s0 k0, sm k0 = Some s0 -> k0 <> mkkey src dst -> se' s0 = se s0) ->
+  side (se' s) a = Some c ->
+  (match sm (mkkey src dst) with Some s1 => side (se s1) (negb a) | None => None end <> None ->
+   side (se' s) (negb a) <> None) ->
+  cur sm se q p <> None -> cur sm' se' q p <> None.
+Proof.
+  intros Hqp Hne Ha Hs Hsm Hse Hown Hoth Hold. unfold cur in *.
+  destruct (key_eqb_spec (mkkey q p) (mkkey src dst)) as [Ek|Ek].
+  - destruct (mkkey_eq _ _ _ _ Hqp Hne Ek) as [[? ?]|[? ?]]; subst q p.
+    + rewrite Hs, <- Ha, Hown. discriminate.
+    + rewrite Ek in *. rewrite Hs. rewrite (is_a_swap src dst Hne), <- Ha in *. auto.
+  - rewrite Hsm by auto. destruct (sm (mkkey q p)) as [s0|] eqn:E0; auto.
+    rewrite (Hse s0 _ E0 Ek). auto.
+Qed.
+
+Lemma upd_same {A} (f : nat -> A) k v : upd f k v k = v.
+Proof. unfold upd. rewrite Nat.eqb_refl. reflexivity. Qed.
+Lemma updk_same {A} (f : nat * nat -> A) k v : updk f k v k = v.
+Proof. unfold updk. rewrite key_eqb_refl. reflexivity. Qed.
+
+Ltac rw_side := repeat match goal with
+  | E : s_a _ = _ |- _ => rewrite E in *
+  | E : s_b _ = _ |- _ => rewrite E in *
+  end.
+Ltac t3 := intros; unfold upd, updk in *; cbn in *; beq; cbn in *; rw_side; fin;
+  try solve [intuition fin]; try solve [intuition (rw_st; fin)]; try solve [intuition (rw_eqs; rw_st; fin)];
+  try solve [rw_eqs; repeat match goal with E : t_wants _ = [] |- _ => rewrite E in * end; cbn in *; intuition fin].
+
+Ltac reg_clause :=
+  match goal with
+  | hA1 : A1 _ _ _ |- A1 _ _ _ => intros p0 t0 Hp; specialize (hA1 p0 t0); t3
+  | hA2 : A2 (peers ?S) _, hA1 : A1 _ _ _ |- A2 _ _ => intros t0; specialize (hA2 t0); pose proof (hA1 (t_owner (trk S t0)) (next_tid S)); t3
+  | hA6 : A6 _ _, hA1 : A1 _ _ _ |- A6 _ _ => intros p0 t0 Hp; specialize (hA6 p0 t0); pose proof (hA1 p0 t0); t3
+  | hA3 : A3 _ _ _ |- A3 _ _ _ => intros k0 s0 Hk0; specialize (hA3 k0 s0); t3
+  | hA4 : A4 (sessions ?S) _, hA3 : A3 _ _ _ |- A4 _ _ => intros s0 b c0 Hs0; specialize (hA4 s0 b c0);
+      first [ solve [destruct b; t3] | solve [pose proof (hA3 (s_key (ses S s0)) s0); destruct b; t3] ]
+  | hA5 : A5 _ _ |- A5 _ _ => intros k0 s0 Hk0; specialize (hA5 k0 s0); t3
+  | hB1 : B1 _ _ _ _ _ |- B1 _ _ _ _ _ => intros c0 Ha; specialize (hB1 c0); t3
+  | hB2 : B2 _ _, Hns : forall s b, side _ b <> Some _ |- B2 _ _ => intros s0 b c0 Hs0; specialize (hB2 s0 b c0); specialize (Hns s0 b); destruct b; t3
+  | hB4 : B4 _ _ _, Hns : forall s b, side _ b <> Some _ |- B4 _ _ _ => intros s0 b c0 Hs0; specialize (hB4 s0 b c0); specialize (Hns s0 b); destruct b; t3
+  | hB2 : B2 _ _ |- B2 _ _ => intros s0 b c0 Hs0; specialize (hB2 s0 b c0); destruct b; t3
+  | hC1 : C1 _ _ _ |- C1 _ _ _ => intros c0; specialize (hC1 c0); t3
+  | hC2 : C2 _ _, hC1 : C1 _ _ _ |- C2 _ _ => intros c0; specialize (hC2 c0); specialize (hC1 c0); t3
+  | hC3 : C3 _ _ |- C3 _ _ => intros t0; specialize (hC3 t0); t3
+  | hC4 : C4 _ _, hC1 : C1 _ _ _ |- C4 _ _ => intros c0 e9; specialize (hC4 c0 e9); specialize (hC1 c0); t3
+  | hC5 : C5 _ _ _, hC1 : C1 _ _ _ |- C5 _ _ _ => intros c0; specialize (hC5 c0); specialize (hC1 c0); t3
+  | hD1 : D1 (ses ?S) _ _ |- D1 _ _ _ => intros c0; specialize (hD1 c0); unfold cur_open in *; destruct (sc_isA (scalls S c0)) eqn:Eia9; t3
+  | hD2 : D2 _ |- D2 _ => intros c0; specialize (hD2 c0); t3
+  | hD3 : D3 _ _ |- D3 _ _ => intros c0 m; specialize (hD3 c0 m); t3
+  | hD4 : D4 _ |- D4 _ => intros c0 m; specialize (hD4 c0 m); t3
+  | hD5 : D5 (ses ?S) _ _ |- D5 _ _ _ => intros c0 m; specialize (hD5 c0 m); destruct (sc_isA (scalls S c0)) eqn:Eia9; t3
+  | hD6 : D6 (ses ?S) _ |- D6 _ _ => intros c0 e9; specialize (hD6 c0 e9); destruct (sc_isA (scalls S c0)) eqn:Eia9; t3
+  end.
+
+Ltac b3_side hA3 s :=
+  first
+  [ solve [t3]
+  | solve [unfold updk; rewrite key_eqb_refl; reflexivity]
+  | solve [intros k0 Hk0; unfold updk; destruct (key_eqb_spec k0 (mkkey _ _)); congruence]
+  | solve [let s0 := fresh "s0" in let k0 := fresh "k0" in let E0 := fresh "E0" in
+           intros s0 k0 E0 ?; destruct (hA3 _ _ E0); unfold upd;
+           repeat (destruct (Nat.eqb_spec s0 s); subst; try lia; try congruence)]
+  | solve [unfold upd; rewrite ?Nat.eqb_refl; cbn; rw_side; congruence]
+  | solve [intros X; exfalso; apply X; reflexivity]
+  | solve [repeat match goal with E : sessions _ _ = _ |- _ => rewrite E end; rw_side;
+           unfold upd; rewrite ?Nat.eqb_refl; cbn; rw_side; auto; try congruence;
+           intros X; exfalso; apply X; reflexivity]
+  | solve [rw_side; unfold upd; rewrite ?Nat.eqb_refl; cbn; rw_side; auto; congruence]
+  | idtac ].
+
+Ltac b3_tac st s a c src dst Hne hA1 hA3 hB3 :=
+  let p0 := fresh "p0" in let t0 := fresh "t0" in let q := fresh "q" in
+  intros p0 t0 q Hp Hq;
+  assert (Hold : q <> p0 /\ (cur (sessions st) (ses st) q p0 <> None \/ (q = src /\ p0 = dst)));
+  [ revert Hp Hq; pose proof (hB3 p0 t0 q); pose proof (hA1 p0 t0); t3
+  | clear Hp Hq; destruct Hold as [X1 [X2|[? ?]]]; [split; [exact X1|] | subst q p0; split; [exact Hne|]];
+    [ eapply (cur_preserved (sessions st) _ (ses st) _ q p0 src dst s a c X1 Hne); eauto; cbn; b3_side hA3 s
+    | unfold cur, updk, upd; cbn; rewrite ?key_eqb_refl; rw_side; cbn;
+      repeat match goal with E : sessions _ _ = _ |- _ => rewrite E end;
+      repeat match goal with E : is_a _ _ = _ |- _ => rewrite E end; cbn;
+      rewrite ?Nat.eqb_refl; cbn; try discriminate ] ].
+
+Lemma sess_register_inv c src dst st : Inv st -> sc_st (scalls st c) = Fresh -> src <> dst -> Inv (sess_register c src dst st).
+Proof.
+  intros H Hf Hne.
+  assert (Hns : forall s b, side (ses st s) b <> Some c).
+  { intros. apply not_alive_not_side; auto. rewrite Hf; reflexivity. }
+  unfold sess_register, ensure_peer, peer_tid, add_want, ensure_session, session_sid.
+  destruct (peers st dst) as [t|] eqn:Ep; cbn; rewrite ?Ep; cbn.
+  - destruct (memb_spec src (t_wants (trk st t))) as [Hm|Hm]; cbn.
+    + {
+      destruct (sessions st (mkkey src dst)) as [s|] eqn:Es; cbn; rewrite ?Es, ?key_eqb_refl; cbn.
+      - inv_split H. destruct (hA1 _ _ Ep) as [Ht Ho]. destruct (hA3 _ _ Es) as [Hs Hk].
+        unfold wake_sess, put_swoken, put_box, put_scall, clear_partner, put_ses, put_trk, wake_trk.
+        destruct (is_a src dst) eqn:Ea; cbn.
+        + destruct (s_b (ses st s)) as [d|] eqn:Ed; cbn.
+          * constructor; cbn; auto; try reg_clause.
+            all: try b3_tac st s true c src dst Hne hA1 hA3 hB3.
+          * constructor; cbn; auto; try reg_clause.
+            all: try b3_tac st s true c src dst Hne hA1 hA3 hB3.
+        + destruct (s_a (ses st s)) as [d|] eqn:Ed; cbn.
+          * constructor; cbn; auto; try reg_clause.
+            all: try b3_tac st s false c src dst Hne hA1 hA3 hB3.
+          * constructor; cbn; auto; try reg_clause.
+            all: try b3_tac st s false c src dst Hne hA1 hA3 hB3.
+      - inv_split H. destruct (hA1 _ _ Ep) as [Ht Ho].
+        unfold wake_sess, put_swoken, put_box, put_scall, clear_partner, put_ses, put_trk, wake_trk.
+        unfold updk, upd; cbn; rewrite ?key_eqb_refl, ?Nat.eqb_refl; cbn; rewrite ?key_eqb_refl, ?Nat.eqb_refl; cbn.
+        destruct (is_a src dst) eqn:Ea; cbn.
+        + constructor; cbn; auto; try reg_clause.
+          all: try b3_tac st (next_sid st) true c src dst Hne hA1 hA3 hB3.
+        + constructor; cbn; auto; try reg_clause.
+          all: try b3_tac st (next_sid st) false c src dst Hne hA1 hA3 hB3.
+      }
+    + {
+      destruct (sessions st (mkkey src dst)) as [s|] eqn:Es; cbn; rewrite ?Es, ?key_eqb_refl; cbn.
+      - inv_split H. destruct (hA1 _ _ Ep) as [Ht Ho]. destruct (hA3 _ _ Es) as [Hs Hk].
+        unfold wake_sess, put_swoken, put_box, put_scall, clear_partner, put_ses, put_trk, wake_trk.
+        destruct (is_a src dst) eqn:Ea; cbn.
+        + destruct (s_b (ses st s)) as [d|] eqn:Ed; cbn.
+          * constructor; cbn; auto; try reg_clause.
+            all: try b3_tac st s true c src dst Hne hA1 hA3 hB3.
+          * constructor; cbn; auto; try reg_clause.
+            all: try b3_tac st s true c src dst Hne hA1 hA3 hB3.
+        + destruct (s_a (ses st s)) as [d|] eqn:Ed; cbn.
+          * constructor; cbn; auto; try reg_clause.
+            all: try b3_tac st s false c src dst Hne hA1 hA3 hB3.
+          * constructor; cbn; auto; try reg_clause.
+            all: try b3_tac st s false c src dst Hne hA1 hA3 hB3.
+      - inv_split H. destruct (hA1 _ _ Ep) as [Ht Ho].
+        unfold wake_sess, put_swoken, put_box, put_scall, clear_partner, put_ses, put_trk, wake_trk.
+        unfold updk, upd; cbn; rewrite ?key_eqb_refl, ?Nat.eqb_refl; cbn; rewrite ?key_eqb_refl, ?Nat.eqb_refl; cbn.
+        destruct (is_a src dst) eqn:Ea; cbn.
+        + constructor; cbn; auto; try reg_clause.
+          all: try b3_tac st (next_sid st) true c src dst Hne hA1 hA3 hB3.
+        + constructor; cbn; auto; try reg_clause.
+          all: try b3_tac st (next_sid st) false c src dst Hne hA1 hA3 hB3.
+      }
+  - rewrite ?upd_same; cbn; rewrite ?upd_same; cbn; unfold memb; cbn; rewrite ?upd_same; cbn.
+    {
+    destruct (sessions st (mkkey src dst)) as [s|] eqn:Es; cbn; rewrite ?Es, ?key_eqb_refl; cbn.
+    - inv_split H. assert (Hfresh : forall p0, peers st p0 <> Some (next_tid st)) by (intros p0 Hp0; destruct (hA1 p0 _ Hp0); lia). destruct (hA2 (next_tid st)) as [Hw0 Hl0]; [apply Hfresh|]. destruct (hA3 _ _ Es) as [Hs Hk].
+      unfold wake_sess, put_swoken, put_box, put_scall, clear_partner, put_ses, put_trk, wake_trk.
+      destruct (is_a src dst) eqn:Ea; cbn.
+      + destruct (s_b (ses st s)) as [d|] eqn:Ed; cbn.
+        * constructor; cbn; auto; try reg_clause.
+          all: try b3_tac st s true c src dst Hne hA1 hA3 hB3.
+        * constructor; cbn; auto; try reg_clause.
+          all: try b3_tac st s true c src dst Hne hA1 hA3 hB3.
+      + destruct (s_a (ses st s)) as [d|] eqn:Ed; cbn.
+        * constructor; cbn; auto; try reg_clause.
+          all: try b3_tac st s false c src dst Hne hA1 hA3 hB3.
+        * constructor; cbn; auto; try reg_clause.
+          all: try b3_tac st s false c src dst Hne hA1 hA3 hB3.
+    - inv_split H. assert (Hfresh : forall p0, peers st p0 <> Some (next_tid st)) by (intros p0 Hp0; destruct (hA1 p0 _ Hp0); lia). destruct (hA2 (next_tid st)) as [Hw0 Hl0]; [apply Hfresh|].
+      unfold wake_sess, put_swoken, put_box, put_scall, clear_partner, put_ses, put_trk, wake_trk.
+      unfold updk, upd; cbn; rewrite ?key_eqb_refl, ?Nat.eqb_refl; cbn; rewrite ?key_eqb_refl, ?Nat.eqb_refl; cbn.
+      destruct (is_a src dst) eqn:Ea; cbn.
+      + constructor; cbn; auto; try reg_clause.
+        all: try b3_tac st (next_sid st) true c src dst Hne hA1 hA3 hB3.
+      + constructor; cbn; auto; try reg_clause.
+        all: try b3_tac st (next_sid st) false c src dst Hne hA1 hA3 hB3.
+    }
+Qed.
+
+Lemma sess_start_inv c src seq r st : Inv st -> Inv (sess_start c src seq r st).
+Proof.
+  intros H. unfold sess_start.
+  destruct (sc_st (scalls st c)) eqn:Ef; auto.
+  destruct r as [[dst|]| | | | |]; try (apply reject_inv; auto).
+  destruct (Nat.eqb_spec seq 0); cbn; try (apply reject_inv; auto).
+  destruct (Nat.eqb_spec dst src); cbn; try (apply reject_inv; auto).
+  apply sess_register_inv; auto.
+Qed.
